@@ -262,12 +262,44 @@ def fp_diff(a, b):
 # =====================================================================================================
 FLAVOURS = ('list', 'array', 'neg', 'nan', 'plain')
 QUICK_FLAVOURS = ('array', 'negnan', 'plain')     # 'negnan' = list-valued descriptors, negative values and NaN pairs at once
-CONDS = ['c3', 'c0', 'c4', 'c1', 'c2', 'c6', 'c5']
-SUBJ = ['s2', 's0', 's3', 's1', 's4']
+CONDS = ['c3', 'c0', 'c4', 'c1', 'c2', 'c6', 'c5', 'c9', 'c7', 'c10', 'c8']      # (entries 8.. are used by the 'big' flavour only)
+SUBJ = ['s2', 's0', 's3', 's1', 's4', 's7', 's5', 's6']
+
+# ---- dimension sweep: further pool flavours, each varies ONE dimension of the inputs; flavour -> family (the family is
+# ---- part of the input class: '<label>@<family>', so that these cases can never share a key with the base sweep)
+DIM_FLAVOURS = {
+    # typed data: RDM vectors / measurements / model vectors of another dtype (bare float arrays: float32 for 'f32')
+    'int16': 'typed', 'uint8': 'typed', 'int64': 'typed', 'f32': 'typed',
+    # extreme but legitimate units: every data array scaled by 1e-20 / 1e+9
+    'tiny': 'units', 'huge': 'units',
+    # containers: tuple-valued descriptors and tuple index arguments; vector-valued (2-D ndarray) descriptors next to the
+    # scalar ones; int instead of str labels; descriptor dictionaries written in the reverse key order
+    'tuple': 'containers', 'vec2d': 'containers', 'intlab': 'containers', 'revkeys': 'containers',
+    # repeated + interleaved descriptor values, first-appearance order != sorted order, unbalanced group sizes
+    'unbal': 'groups',
+    # sizes: a single RDM / a single channel / a single time point; more items than the base pool (7 RDMs, 8 x 11 for inference,
+    # 3 repetitions + 1 extra observation, 7 channels)
+    'one': 'sizes', 'big': 'sizes',
+    # call sequences: the call is made twice on the same arguments ('twice') / once on other arguments of the same shapes and
+    # then on the arguments ('warm'): clauses 1 and 2 for the LATER call, and what the caller holds from the earlier call
+    # (its result, its arguments) is not changed by the later call
+    'twice': 'sequence', 'warm': 'sequence',
+}
+SEQ_FLAVOURS = ('twice', 'warm')
+DIM_INT = {'int16': np.int16, 'uint8': np.uint8, 'int64': np.int64}
+DIM_SCALE = {'tiny': 1e-20, 'huge': 1e+9}
 
 
 class Skip(Exception):
     """the pool has no argument for this parameter / this variant does not exist"""
+
+
+def _intlab(x):
+    """'c3' -> 3, 's01' -> 1 (flavour 'intlab': the same labels as int); everything else unchanged"""
+    import re
+    if isinstance(x, str) and re.fullmatch(r'[csrv]\d+', x):
+        return int(x[1:])
+    return x
 
 
 class Pool:
@@ -276,13 +308,39 @@ class Pool:
         self.flavour = flavour
         self.tmp = tmp
         self.n_cond = 5
-        self.n_rdm = 4
+        self.n_rdm = {'one': 1, 'big': 7}.get(flavour, 4)
+        self.made = set()          # ids of the data arrays that already carry the dtype / unit of the flavour
 
     # ---- descriptors --------------------------------------------------------------------------------
     def dvals(self, vals):
+        if self.flavour == 'intlab':
+            vals = [_intlab(x) for x in vals]
         if self.flavour == 'array':
             return np.array(vals)
+        if self.flavour == 'tuple':
+            return tuple(vals)
         return list(vals)
+
+    def dd(self, d):
+        """a descriptor dictionary as the caller writes it ('revkeys': in the reverse key order)"""
+        if d is not None and self.flavour == 'revkeys':
+            return {k: d[k] for k in reversed(list(d))}
+        return d
+
+    def data(self, a, positive=False):
+        """the data array `a` (float64, moderate values) in the dtype / unit of the flavour"""
+        fl = self.flavour
+        if fl in DIM_INT:
+            a = np.round(a * 8)
+            if fl == 'uint8' or positive:
+                a = np.abs(a) + (1 if positive else 0)
+            a = a.astype(DIM_INT[fl])
+        elif fl == 'f32':
+            a = a.astype(np.float32)
+        elif fl in DIM_SCALE:
+            a = a * DIM_SCALE[fl]
+        self.made.add(id(a))
+        return a
 
     # ---- RDMs ---------------------------------------------------------------------------------------
     def rdm_array(self, n_rdm=None, n_cond=None):
@@ -293,11 +351,11 @@ class Pool:
         pts = self.rs.randn(n_rdm, n_cond, n_cond + 2)
         iu = np.triu_indices(n_cond, 1)
         v = np.array([((p[:, None, :] - p[None, :, :]) ** 2).sum(-1)[iu] for p in pts]) / (n_cond + 2) + 0.01 * self.rs.rand(n_rdm, n_pair)
-        if self.flavour in ('neg', 'negnan'):
+        if self.flavour in ('neg', 'negnan') + SEQ_FLAVOURS:
             v[:, ::3] -= 1.7
-        if self.flavour in ('nan', 'negnan'):
+        if self.flavour in ('nan', 'negnan') + SEQ_FLAVOURS:
             v[:, [1, n_pair - 2]] = np.nan
-        return v
+        return self.data(v)
 
     def rdms(self, n_rdm=None, n_cond=None, conds=None, measure='euclidean', extra_rdm_desc=None):
         from rsatoolbox.rdm import RDMs
@@ -308,31 +366,53 @@ class Pool:
             return RDMs(v, dissimilarity_measure=measure)
         conds = conds or CONDS[:n_cond]
         rd = {'subj': self.dvals(SUBJ[:n_rdm]), 'sess': self.dvals([(i // 2) for i in range(n_rdm)])}
+        pd = {'conds': self.dvals(conds), 'grp': self.dvals([i % 3 for i in range(n_cond)])}
+        if self.flavour == 'unbal':        # repeated, interleaved values; groups of sizes 3 / 1 / 1 ...
+            rd['sess'] = self.dvals([(1, 0, 1, 1, 2, 0, 1, 1)[i] for i in range(n_rdm)])
+            pd['grp'] = self.dvals([(2, 0, 2, 1, 2, 0, 2, 2, 1, 2, 0)[i] for i in range(n_cond)])
+        if self.flavour == 'vec2d':        # vector-valued descriptors (one row per RDM / pattern)
+            rd['coord'] = np.arange(2.0 * n_rdm).reshape(n_rdm, 2)[::-1].copy()
+            pd['pos'] = (np.arange(3 * n_cond).reshape(n_cond, 3) * 7 % 11)
         if extra_rdm_desc:
             rd.update(extra_rdm_desc)
-        return RDMs(v, dissimilarity_measure=measure, descriptors={'roi': 'V1', 'note': [1, 2]},
-                    rdm_descriptors=rd,
-                    pattern_descriptors={'conds': self.dvals(conds), 'grp': self.dvals([i % 3 for i in range(n_cond)])})
+        return RDMs(v, dissimilarity_measure=measure, descriptors=self.dd({'roi': 'V1', 'note': [1, 2]}),
+                    rdm_descriptors=self.dd(rd), pattern_descriptors=self.dd(pd))
 
     # ---- datasets -----------------------------------------------------------------------------------
-    def ds_parts(self, n_rep=2, n_cond=4, n_ch=5):
+    def ds_parts(self, n_rep=2, n_cond=4, n_ch=5, positive=False):
+        if self.flavour == 'one':
+            n_ch = 1
+        if self.flavour == 'big':
+            n_rep, n_ch = n_rep + 1, min(n_ch + 2, 7)
         labels = (['c1', 'c0', 'c3', 'c2', 'c5', 'c4'][:n_cond]) * n_rep
         runs = [r for r in range(n_rep) for _ in range(n_cond)]
-        X = self.rs.randn(n_cond * n_rep, n_ch) + 2 * self.rs.randn(n_cond, n_ch)[[i % n_cond for i in range(n_cond * n_rep)]]
-        if self.flavour in ('neg', 'negnan'):
+        if self.flavour == 'big':          # one extra observation: group sizes are no longer equal
+            labels, runs = labels + labels[:1], runs + [0]
+        if self.flavour == 'unbal':        # interleaved, first appearance c1 c0 c3 c2 (not sorted), group sizes differ
+            seq = [0, 1, 0, 2, 3, 0, 1, 2, 0, 3, 1, 0, 2, 0]
+            n_obs = n_cond * n_rep + 1
+            labels = [labels[seq[i % len(seq)] % n_cond] for i in range(n_obs)]
+            runs = [(0, 1, 1, 0, 1, 0, 0, 1, 1, 0, 1)[i % 11] % max(n_rep, 1) for i in range(n_obs)]
+        n_obs = len(labels)
+        X = self.rs.randn(n_obs, n_ch) + 2 * self.rs.randn(n_cond, n_ch)[[(i % n_cond) for i in range(n_obs)]]
+        if self.flavour in ('neg', 'negnan') + SEQ_FLAVOURS:
             X = X - 1.0
+        if positive:
+            X = np.abs(X) + 0.1
+        X = self.data(X, positive)
         if self.flavour == 'plain':
             return X, None, None, None
         obs = {'conds': self.dvals(labels), 'runs': self.dvals(runs)}
         ch = {'rois': self.dvals((['r1', 'r0', 'r1', 'r0', 'r2', 'r2', 'r0'])[:n_ch]),
               'vox': self.dvals([f'v{i}' for i in range(n_ch)])}
-        return X, {'subj': 's01', 'sess': 2}, obs, ch
+        if self.flavour == 'vec2d':
+            obs['xy'] = np.arange(2 * n_obs).reshape(n_obs, 2) * 5 % 7
+            ch['loc'] = np.arange(3.0 * n_ch).reshape(n_ch, 3)[::-1].copy()
+        return X, self.dd({'subj': 's01', 'sess': 2}), self.dd(obs), self.dd(ch)
 
     def dataset(self, n_rep=2, n_cond=4, n_ch=5, positive=False):
         from rsatoolbox.data import Dataset
-        X, d, obs, ch = self.ds_parts(n_rep, n_cond, n_ch)
-        if positive:
-            X = np.abs(X) + 0.1
+        X, d, obs, ch = self.ds_parts(n_rep, n_cond, n_ch, positive)
         return Dataset(X, descriptors=d, obs_descriptors=obs, channel_descriptors=ch)
 
     def dataset_base(self):
@@ -341,13 +421,25 @@ class Pool:
         return DatasetBase(X, descriptors=d, obs_descriptors=obs, channel_descriptors=ch)
 
     def td_parts(self, n_obs=6, n_ch=3, n_time=4):
-        X = self.rs.randn(n_obs, n_ch, n_time)
+        if self.flavour == 'one':
+            n_ch, n_time = 1, 1
+        if self.flavour == 'big':
+            n_obs, n_ch, n_time = n_obs + 4, n_ch + 1, n_time + 3
+        X = self.data(self.rs.randn(n_obs, n_ch, n_time))
         if self.flavour == 'plain':
             return X, None, None, None, None
-        obs = {'conds': self.dvals((['c1', 'c0', 'c2'] * n_obs)[:n_obs]), 'runs': self.dvals([i // 3 for i in range(n_obs)])}
+        conds = (['c1', 'c0', 'c2'] * n_obs)[:n_obs]
+        runs = [i // 3 for i in range(n_obs)]
+        if self.flavour == 'unbal':
+            conds = [('c1', 'c0', 'c1', 'c2', 'c1', 'c0', 'c1', 'c2', 'c2', 'c1')[i % 10] for i in range(n_obs)]
+            runs = [(1, 0, 0, 1, 0, 1, 1, 0, 0, 1)[i % 10] for i in range(n_obs)]
+        obs = {'conds': self.dvals(conds), 'runs': self.dvals(runs)}
         ch = {'rois': self.dvals((['r1', 'r0', 'r1', 'r0'])[:n_ch]), 'vox': self.dvals([f'v{i}' for i in range(n_ch)])}
         tm = {'time': np.arange(n_time) * 1.0, 'half': self.dvals([i * 2 // n_time for i in range(n_time)])}
-        return X, {'subj': 's01'}, obs, ch, tm
+        if self.flavour == 'vec2d':
+            obs['xy'] = np.arange(2 * n_obs).reshape(n_obs, 2) * 5 % 7
+            tm['win'] = np.arange(2.0 * n_time).reshape(n_time, 2)
+        return X, self.dd({'subj': 's01'}), self.dd(obs), self.dd(ch), self.dd(tm)
 
     def tdataset(self, n_obs=6, n_ch=3, n_time=4):
         from rsatoolbox.data import TemporalDataset
@@ -358,7 +450,7 @@ class Pool:
     def model(self, kind='fixed', name='m0', from_array=False):
         import rsatoolbox.model as M
         cls = dict(fixed=M.ModelFixed, select=M.ModelSelect, weighted=M.ModelWeighted, interpolate=M.ModelInterpolate)[kind]
-        keep, self.flavour = self.flavour, ('list' if self.flavour in ('nan', 'negnan', 'neg') else self.flavour)
+        keep, self.flavour = self.flavour, ('list' if self.flavour in ('nan', 'negnan', 'neg') + SEQ_FLAVOURS else self.flavour)
         try:
             if from_array:
                 a = self.rdm_array(1 if kind == 'fixed' else 3)
